@@ -388,10 +388,13 @@ Fixpoint seen_add (v : pyval) (nc : coords) (s : seen) : seen :=
   | (k, l) :: r => if py_eq k v then (k, l ++ [nc]) :: r else (k, l) :: seen_add v nc r
   end.
 
+(* KeywordSearches._group_by_value: `eval_val in seen_values` on a Hash, Array
+   or Set raises TypeError (unhashable), which is reported as a
+   YAMLPathException *)
 Definition hashable_val (n : node) : outcome pyval :=
   match n with
   | NLeaf _ v => Ok v
-  | _ => Raise (PyCrash TypeError)
+  | _ => Raise (YPE Generic)
   end.
 
 Definition group_values (params : list string) (data : node) (x : kctx) : outcome seen :=
